@@ -956,3 +956,33 @@ fn crash_signature(sc: &Scenario) -> String {
         "process abort".into()
     }
 }
+
+
+/// `dst determinism <prop> <tier> <n>`: run indices [0,n) in three process layouts
+/// (1 worker, 5 workers, all cores with a core offset) and compare the interleaving hashes.
+pub fn determinism(prop: &str, tier: Tier, seed: u64, n: u64) -> i32 {
+    let ncores = std::thread::available_parallelism().map(|n| n.get()).unwrap_or(4);
+    let layouts = [(1usize, 0usize), (5, 3), (ncores, 7)];
+    let mut maps: Vec<BTreeMap<u64, u64>> = vec![];
+    for (w, off) in layouts {
+        let b = run_batch(prop, tier, seed, 0, n, w, true, off);
+        if !b.harness_errors.is_empty() {
+            eprintln!("harness error: {:?}", b.harness_errors);
+            return 2;
+        }
+        maps.push(b.stats.hashes.iter().cloned().collect());
+    }
+    let mut bad = 0;
+    for (k, v) in &maps[0] {
+        for m in &maps[1..] {
+            if m.get(k) != Some(v) {
+                bad += 1;
+                if bad < 10 {
+                    eprintln!("run index {}: {:016x} vs {:?}", k, v, m.get(k));
+                }
+            }
+        }
+    }
+    println!("determinism {}: {} run indices x 3 process layouts (1, 5, {} workers), {} mismatches", prop, maps[0].len(), ncores, bad);
+    if bad == 0 { 0 } else { 2 }
+}
